@@ -316,7 +316,7 @@ func TestVerifC18Small(t *testing.T) {
 }
 
 func TestVerifC18Rand(t *testing.T) {
-	vRun(t, "C18.rand", vCount(300, 6000), func(c *vCase) {
+	vRun(t, "C18.rand", vCount(300, 25000), func(c *vCase) {
 		c.Bubble(func() {
 			nP := c.Range(2, 6)
 			x := c18New(c, nP)
@@ -624,7 +624,7 @@ func TestVerifC18Stress(t *testing.T) {
 // one event-loop step). One-shot consumers take a single event and leave; a looping consumer must then be woken
 // for the rest (this needs the signal to be re-armed by whoever took an event while more were pending).
 func TestVerifC18Burst(t *testing.T) {
-	vRun(t, "C18.burst", vCount(400, 8000), func(c *vCase) {
+	vRun(t, "C18.burst", vCount(400, 30000), func(c *vCase) {
 		// one P: the consumers cannot run while the producer is in its burst, so all k notifications
 		// are in the log before the first consumer wakes (the interleaving that needs the re-arm)
 		prev := runtime.GOMAXPROCS(1)
